@@ -351,7 +351,12 @@ func (i *Interpreter) Exec(ctx context.Context, bs match.Bindings, props core.St
 		return nil, err
 	}
 
-	x := v.Export()
+	// Exporting the value can run code (say a getter), which can
+	// throw.
+	x, err := export(v)
+	if err != nil {
+		return nil, err
+	}
 
 	var result match.Bindings
 	switch vv := x.(type) {
@@ -414,6 +419,17 @@ func canonicalize(x interface{}) (interface{}, error) {
 		return nil, err
 	}
 	return y, nil
+}
+
+// export calls v.Export() and turns a panic into an error (as
+// RunProgram does).
+func export(v goja.Value) (x interface{}, err error) {
+	defer func() {
+		if r := recover(); r != nil {
+			err = fmt.Errorf("%s", r)
+		}
+	}()
+	return v.Export(), nil
 }
 
 func RunProgram(o *goja.Runtime, p *goja.Program) (v goja.Value, err error) {
